@@ -43,6 +43,12 @@ def expo (b : Bits) : Int := if expField b == 0 then -1074 else (expField b : In
 def neg (b : Bits) : Bits := b ^^^ 0x8000000000000000
 def abs (b : Bits) : Bits := b &&& 0x7FFFFFFFFFFFFFFF
 
+/-- round-half-even of num/den to a natural number -/
+def rne (num den : Nat) : Nat :=
+  let q := num / den
+  let r := num % den
+  if 2 * r > den || (2 * r == den && q % 2 == 1) then q + 1 else q
+
 /-- Round the positive rational num/den (den > 0) to nearest-even; returns the magnitude bits. -/
 def roundMag (num den : Nat) : Bits :=
   if num == 0 || den == 0 then 0 else
@@ -63,7 +69,7 @@ def roundMag (num den : Nat) : Bits :=
   -- subnormal range: the shift is capped at 1074
   let s : Int := if s1 > 1074 then 1074 else s1
   let (q, r, d) := quot s
-  let q' := if 2 * r > d || (2 * r == d && q % 2 == 1) then q + 1 else q
+  let q' := rne (q * d + r) d
   -- biased exponent of a normal result: (52 - s) + 1023; composing as (be-1)·2^52 + q'
   -- lets a rounding carry propagate into the exponent; subnormals (s = 1074) get be = 0 → q'.
   let be : Int := 1075 - s
@@ -182,10 +188,7 @@ def natToDigits (n : Nat) : List Char := (Nat.toDigits 10 n)
 /-- digits of round-half-even(|x| · 10^p) and sign, for finite x -/
 def fixedScaled (b : Bits) (p : Nat) : Nat :=
   let (n, d) := toFrac (mant b) (expo b)
-  let num := n * 10 ^ p
-  let q := num / d
-  let r := num % d
-  if 2 * r > d || (2 * r == d && q % 2 == 1) then q + 1 else q
+  rne (n * 10 ^ p) d
 
 /-- `strconv.FormatFloat(x, 'f', p, 64)` -/
 def fmtFixed (b : Bits) (p : Nat) : String :=
